@@ -87,7 +87,13 @@ package json
 // token's bytes are the source bytes of its range, and consecutive ranges do not overlap.
 // verif:pred tokOK(t token, a ref, o0 int, b0 int, fn string) = t.Range.Filename == fn && t.Range.Start.Byte <= t.Range.End.Byte && (t.Type != tokenEOF ==> arr(t.Bytes) == a && off(t.Bytes) - o0 == t.Range.Start.Byte - b0 && len(t.Bytes) == t.Range.End.Byte - t.Range.Start.Byte && len(t.Bytes) >= 1) && (t.Type == tokenEOF ==> len(t.Bytes) == 0 && t.Range.Start.Byte == t.Range.End.Byte)
 
+// (ghost: scannedOrg/scannedLen record which byte slice was handed to the scanner - see unit U3b below)
+// verif:ghostvar scannedOrg ref
+// verif:ghostvar scannedLen int
 // verif:func scan
+//@ ghost scannedOrg = old(org(buf))
+//@ ghost scannedLen = old(len(buf))
+//@ ensures scanned: scannedOrg == old(org(buf)) && scannedLen == old(len(buf))
 //@ ensures nonempty: len(ret) >= 1
 //@ ensures lastEOF: ret[len(ret)-1].Type == tokenEOF
 //@ ensures onlyLastEOF: forall k int :: 0 <= k && k < len(ret)-1 ==> ret[k].Type != tokenEOF
@@ -164,3 +170,29 @@ package json
 // verif:func (*expression).Variables
 //@ nosafety
 //@ ensures template: typeis(old(e.src), ptr(stringVal)) ==> tmplParses == old(tmplParses) + 1
+
+// ---- the whole input is scanned (unit U3b, C13) ----
+// verif:unit U3b props=C13
+// "Accepted iff the byte string is a JSON text" is a statement about the caller's bytes: every entry
+// point hands exactly the slice it was given to the scanner - nothing is trimmed, copied or
+// normalised on the way.
+// verif:func parseFileContent
+//@ nosafety
+//@ assumepre
+//@ ensures whole: scannedOrg == org(buf) && scannedLen == len(buf)
+// verif:func parseExpression
+//@ nosafety
+//@ assumepre
+//@ ensures whole: scannedOrg == org(buf) && scannedLen == len(buf)
+// verif:func ParseWithStartPos
+//@ nosafety
+//@ ensures whole: scannedOrg == org(src) && scannedLen == len(src)
+// verif:func ParseExpressionWithStartPos
+//@ nosafety
+//@ ensures whole: scannedOrg == org(src) && scannedLen == len(src)
+// verif:func Parse
+//@ nosafety
+//@ ensures whole: scannedOrg == org(src) && scannedLen == len(src)
+// verif:func ParseExpression
+//@ nosafety
+//@ ensures whole: scannedOrg == org(src) && scannedLen == len(src)
